@@ -1,6 +1,7 @@
 // C12 — weighted sampling follows the current weights after any edits.
 // Generator: histories of add / update / remove / clear / sample on ompl::PDF<int>; oracle: exact prefix-sum model
 // kept in the structure's documented element order (swap-with-last on removal).
+#include <cmath>
 #include "../core/verif.h"
 #include "ompl/datastructures/PDF.h"
 #include "ompl/util/Exception.h"
@@ -29,7 +30,12 @@ vf::Config vf::config()
 void vf::run_case(Src &s, Ctx &c)
 {
     bool extreme = s.chance(48);  // huge weight ratios allowed in this case
-    auto genW = [&]() -> double
+    // The structure is scale-free: a power-of-two factor on every weight changes no rounding, so the same oracle applies at any
+    // magnitude. Most cases use 1; some put all weights far below / above 1 (absolute thresholds in the implementation would show).
+    static const int scaleExp[] = {0, -60, -500, 60, 400};
+    const int se = scaleExp[s.weighted({12, 1, 1, 1, 1})];
+    const double scale = std::ldexp(1.0, se);
+    auto genW1 = [&]() -> double
     {
         static const double small[] = {0, 1, 2, 3, 5, 0.1, 0.2, 0.3, 0.7, 1e-3};
         size_t k = s.weighted({10, 3, extreme ? 3 : 0});
@@ -39,6 +45,7 @@ void vf::run_case(Src &s, Ctx &c)
             return s.real(0, 10);
         return s.flag() ? 1e12 : 1e-12;
     };
+    auto genW = [&]() -> double { return scale * genW1(); };
     P *pdf;
     M m;
     int nextId = 0;
@@ -227,6 +234,7 @@ void vf::run_case(Src &s, Ctx &c)
         }
     }
     c.count(extreme ? "weights:extreme-ratio" : "weights:bounded-ratio");
+    c.count(vf::fmt("weights:scale-2^%d", se));
     c.count(nt ? "sample-after-nonlast-remove" : "other");
     c.nontrivial = nt;
 }
